@@ -563,4 +563,18 @@ Proof.
   - intros; repeat match goal with |- _ /\ _ => split end;
       [apply leaf_good_sampling | apply leaf_good_wsum | apply leaf_good_flatten | apply leaf_good_unflatten]; assumption.
 Qed.
+Lemma leaf_good_proj (ws : list vec) (pw : vec) i : (i < length ws)%nat -> length pw = length ws ->
+  nth i pw nzero = none_ -> vconj (pweights pw ws) = pweights pw ws -> vconj (nth i ws []) = nth i ws [] ->
+  leaf_good (LProj ws pw i) /\ leaf_good (LProjAdj ws pw i).
+Proof.
+  intros. split; split; cbn [leaf_adjoint wf]; first [apply leaf_ok_proj | apply leaf_ok_projadj]; assumption.
+Qed.
+Lemma leaf_good_ptinner (wb pw : vec) (g : list vec) (ow : vec) : g <> [] ->
+  length pw = length g -> length ow = length g ->
+  Forall (fun gi => length gi = length wb) g ->
+  Forall (fun p => nconj p = p /\ p <> nzero) pw -> Forall (fun o => nconj o = o) ow ->
+  vconj wb = wb -> leaf_good (LPtInner wb pw g ow) /\ leaf_good (LPtInnerAdj wb pw g ow).
+Proof.
+  intros. split; split; cbn [leaf_adjoint wf]; first [apply leaf_ok_ptinner | apply leaf_ok_ptinner_adj]; assumption.
+Qed.
 End Leaf.
